@@ -9,8 +9,8 @@ checks, not_app = [], []
 for p in props:
     pid = p["id"]
     cfgp = os.path.join(ROOT, "props", pid + ".json")
-    if os.path.exists(cfgp) and pid not in na:
-        cfg = json.load(open(cfgp))
+    cfg = json.load(open(cfgp)) if os.path.exists(cfgp) else None
+    if cfg is not None and pid not in na and cfg.get("theorems"):
         checks.append({
             "property_id": pid,
             "quick_cmd": f"./check {pid} --tier quick",
